@@ -1,6 +1,7 @@
 package gen
 
 import (
+	"fmt"
 	"go.pennock.tech/tabular"
 	"go.pennock.tech/tabular/properties"
 	"go.pennock.tech/tabular/properties/align"
@@ -35,6 +36,9 @@ type TableSpec struct {
 	// Bystanders are callbacks that do nothing, registered on the table or on column 0 before the first row
 	// operation: nothing a renderer does may depend on whether somebody else listens.
 	Bystanders []CbSpec `json:"do_nothing_callbacks,omitempty"`
+	// AppErrors is the number of errors the application itself recorded on the finished table (t.AddError): the
+	// error list is for the application to inspect; what a renderer writes does not depend on it.
+	AppErrors int `json:"errors_recorded_by_the_application,omitempty"`
 }
 
 // CbSpec is one RegisterPropertyCallback call with a callback that does nothing.
@@ -113,6 +117,9 @@ func (p *PropSpec) val() interface{} {
 func (b *Built) applyProps() {
 	if b.spec == nil {
 		return
+	}
+	for i := 0; i < b.spec.AppErrors; i++ {
+		b.T.AddError(fmt.Errorf("error %d recorded by the application itself", i+1))
 	}
 	for i := range b.spec.Props {
 		p := &b.spec.Props[i]
@@ -481,6 +488,9 @@ func (r *R) Table(o TableOpts) TableSpec {
 	}
 	if o.Noise&(NoiseSkipable|NoiseAlign) != 0 && r.Chance(1, 3) {
 		s.Props = r.noise(&s, o.Noise)
+	}
+	if o.Noise != 0 && r.Chance(1, 6) {
+		s.AppErrors = r.Range(1, 3)
 	}
 	if o.Noise&NoiseCallbacks != 0 && r.Chance(1, 4) {
 		for n := r.Range(1, 3); n > 0; n-- {
